@@ -324,6 +324,10 @@ pub fn run(out: &mut Shards, scn: &str, lgk: u8, rf: u8, p: f32, seed: u64, ops:
                                 let mut e = base;
                                 e["ok"] = json!(true);
                                 e["c"] = cstate(&b, &rk);
+                                // the seed hash the decoded sketch carries (what it writes into its own image)
+                                let again = b.serialize();
+                                e["sho"] = json!(again[6..8].to_vec());
+                                e["shx"] = json!(refhash::seed_hash(seed).to_le_bytes().to_vec());
                                 e["o"] = obs_of(&seven_c(&b), b.is_empty(), b.num_retained(), b.is_estimation_mode(), b.theta64());
                                 out.ev(e);
                             }
